@@ -290,6 +290,98 @@ def check_multiline(res):
                                       {'src': v, 'width': w, 'variant': 'multiline', 'base': src})
 
 
+RUN_CONTEXTS = [
+    # (name, text with @ where the run goes, depth of the run or None when not asserted)
+    ('between-stats', b'x=1\n@y=2\n', 0),
+    ('start', b'@x=1\n', 0),
+    ('eof', b'x=1\n@', 0),
+    ('in-do', b'do\n@x=1\nend\n', 1),
+    ('before-end', b'do\nx=1\n@end\n', None),
+    ('depth2', b'if a then\nwhile b do\n@x=1\nend\nend\n', 2),
+    ('in-function', b'function f()\nlocal a=1\n@return a\nend\n', 1),
+    ('in-table', b't={\n1,\n@2}\n', None),
+]
+RUN_MAX = {'quick': 20, 'thorough': 40}
+RUN_KINDS = [('dash', (b'-- c%d',)), ('slash', (b'// c%d',)), ('mixed', (b'-- c%d', b'// c%d')),
+             ('code', (b'-- x=%d',)), ('blank-between', (b'-- c%d', b''))]
+RUN_LEADS = [b'', b' ', b'\t', b'     ']
+
+
+def check_runs(res, tier, only=None):
+    """Runs of 1..N own-line comments (and blank lines) in one gap between two code tokens: the output must not
+    depend on how the run's lines are indented in the input, whatever the length of the run."""
+    for cname, ctx, depth in RUN_CONTEXTS:
+        if only is not None and cname != only:
+            continue
+        for kname, pats in RUN_KINDS:
+            for n in range(1, RUN_MAX[tier] + 1):
+                body = [pats[i % len(pats)] % i if pats[i % len(pats)] else b'' for i in range(n)]
+                variants = []
+                for ld in RUN_LEADS:
+                    variants.append(b''.join((ld + l if l else ld) + b'\n' for l in body))
+                variants.append(b''.join(RUN_LEADS[i % 4] + l + b'\n' for i, l in enumerate(body)))
+                variants.append(b''.join(RUN_LEADS[(n - i) % 4] + l + b' \n' for i, l in enumerate(body)))
+                for w in (2, 0, 5):
+                    outs = []
+                    for v in variants:
+                        src = ctx.replace(b'@', v)
+                        res.evaluations += 1
+                        case = {'src': src, 'width': w, 'variant': 'runs', 'ctx': cname, 'kind': kname, 'n': n}
+                        try:
+                            outs.append(fmt(src, w))
+                        except Exception as e:
+                            res.violation('C10|runs|raise|%s|%s' % (type(e).__name__, cname),
+                                          'luafmt(%r, %d) raised %r' % (src, w, e), case)
+                            outs = None
+                            break
+                    if outs is None:
+                        continue
+                    res.nontriv((cname, kname, n, w))
+                    for v, o in zip(variants[1:], outs[1:]):
+                        if o != outs[0]:
+                            res.violation('C10|runs|indent-sensitive|%s|%s' % (cname, kname),
+                                          'run of %d comment lines (%s): luafmt(%r, %d) = %r but with the run indented '
+                                          'differently (%r) it gives %r' % (n, cname, ctx.replace(b'@', variants[0]), w,
+                                                                           outs[0], ctx.replace(b'@', v), o),
+                                          {'src': ctx.replace(b'@', v), 'width': w, 'variant': 'runs', 'ctx': cname,
+                                           'kind': kname, 'n': n})
+                            break
+                    if depth is not None:
+                        want = b' ' * (w * depth)
+                        for line in outs[0].split(b'\n'):
+                            st = line.lstrip(b' \t')
+                            if st.startswith((b'-- c', b'// c', b'-- x=')) and line[:len(line) - len(st)] != want:
+                                res.violation('C10|runs|comment-indent|%s|%s' % (cname, kname),
+                                              'run of %d comment lines at depth %d, width %d: output line %r is not '
+                                              'indented by %d spaces' % (n, depth, w, line, w * depth),
+                                              {'src': ctx.replace(b'@', variants[0]), 'width': w, 'variant': 'runs',
+                                               'ctx': cname, 'kind': kname, 'n': n})
+                                break
+                    res.outcome(('runs', cname, kname, min(n, 3)))
+            # blank-line runs of the same length with different blanks inside
+            for n in range(1, RUN_MAX[tier] + 1):
+                if kname != 'dash':
+                    break
+                variants = [b'\n' * n, b'  \n' * n, b'\t\n' * n, b''.join(RUN_LEADS[i % 4] + b'\n' for i in range(n))]
+                for w in (2, 0):
+                    outs = []
+                    for v in variants:
+                        src = ctx.replace(b'@', v)
+                        res.evaluations += 1
+                        try:
+                            outs.append(fmt(src, w))
+                        except Exception as e:
+                            res.violation('C10|runs|raise|%s|%s' % (type(e).__name__, cname),
+                                          'luafmt(%r, %d) raised %r' % (src, w, e),
+                                          {'src': src, 'width': w, 'variant': 'runs'})
+                            outs = None
+                            break
+                    if outs and any(o != outs[0] for o in outs):
+                        res.violation('C10|runs|blank-run-sensitive|%s' % cname,
+                                      'run of %d blank lines (%s): output depends on the blanks inside the blank lines: %r' % (
+                                          n, cname, outs), {'src': ctx.replace(b'@', variants[1]), 'width': w, 'variant': 'runs'})
+
+
 def shortif_else(prog):
     """The program has a line-scoped if with an else part."""
     for (f, l) in prog.scopes:
@@ -347,6 +439,7 @@ def shards(tier, seed):
         for k in range(nn):
             items.append(('programs', 'c10', tier, fam, k, nn))
     items.append(('multiline',))
+    items += [('runs', tier, c[0]) for c in RUN_CONTEXTS]
     items.append(('cli',))
     return items
 
@@ -356,6 +449,10 @@ def run_shard(item):
     if item[0] == 'cli':
         cli_widths(res)
         res.sample({'cli': 'p8tool luafmt --indentwidth W for W in default,0..8'})
+        return res
+    if item[0] == 'runs':
+        check_runs(res, item[1], item[2])
+        res.sample({'src': RUN_CONTEXTS[3][1].replace(b'@', b'-- c0\n\t-- c1\n'), 'runs': '1..%d lines' % RUN_MAX[item[1]]})
         return res
     if item[0] == 'multiline':
         check_multiline(res)
@@ -385,6 +482,9 @@ def replay(case):
     res = ShardResult()
     if case.get('variant') == 'cli':
         cli_widths(res)
+        return [(s, v[0]) for s, v in res.violations.items()]
+    if case.get('variant') == 'runs':
+        check_runs(res, 'thorough')
         return [(s, v[0]) for s, v in res.violations.items()]
     if case.get('variant') == 'multiline':
         check_multiline(res)
